@@ -130,21 +130,60 @@ def check_bracket(rep, db, f, inst, kind):
     rep.ok(rule, site(f), "one opening and one closing notification bracket the crossing with the same identity; closing + timing record issued by scope guards built before the first abortable statement (%d paths)" % len(ps), inst)
 
 
+def scope_exit_shape(db, f):
+    """(flag field, function field, armed value) of the scope guard class f belongs to - from the record (the bool member is the
+    flag, the other member the function) and from the destructor (the flag value under which the function runs); no member name
+    or polarity is assumed."""
+    rec = db.rec_by_id.get(f.get("rid")) or {}
+    flags = [fl["n"] for fl in rec.get("fields", []) if (fl["t"] or {}).get("k") == "bool"]
+    funcs = [fl["n"] for fl in rec.get("fields", []) if (fl["t"] or {}).get("k") != "bool"]
+    if len(flags) != 1 or len(funcs) != 1:
+        return None
+    F, G = flags[0], funcs[0]
+    key = (id(db), rec.get("id"))
+    if key not in _ARMED:
+        armed = None
+        dt = next((g for g in db.functions if g.get("rid") == rec.get("id") and g.get("kind") == "dtor" and "body" in g and not g["dep"]), None)
+        if dt is not None:
+            flag = ("rd", ("fld", THIS_OBJ, F))
+            for p in Engine(db).run(dt):
+                runs = [e for e in p.events if e.kind == "CALL" and e.c is not None and q.mentions(e.c, lambda x: x == ("fld", THIS_OBJ, G))]
+                if runs:
+                    conds = q.conds_before(p, p.events.index(runs[0]))
+                    if ("cmp", "!=", flag, C(0)) in conds:
+                        armed = 1
+                    elif ("cmp", "==", flag, C(0)) in conds:
+                        armed = 0
+        _ARMED[key] = armed
+    return F, G, _ARMED[key]
+
+
+_ARMED = {}
+
+
 def check_scope_exit(rep, db, f, inst):
     rule = "R-C19-scope-exit"
-    nm = f["sn"]
+    shape = scope_exit_shape(db, f)
+    if shape is None or shape[2] is None:
+        if f.get("kind") in ("dtor", "ctor"):
+            rep.violation(rule, site(f), "the scope guard is not a (flag, function) pair whose destructor runs the function under one value of the flag", f["loc"], inst)
+            return True
+        return False
+    F, G, A = shape
+    flag = ("rd", ("fld", THIS_OBJ, F))
+    armed_c = ("cmp", "!=" if A else "==", flag, C(0))
+    disarmed_c = ("cmp", "==" if A else "!=", flag, C(0))
     if f.get("kind") == "dtor":
         ps = Engine(db).run(f)
-        armed = ("rd", ("fld", THIS_OBJ, "released"))
         ok = True
         saw_run = False
         for p in ps:
             conds = q.conds_before(p, len(p.events))
-            runs = [e for e in p.events if e.kind == "CALL" and e.c is not None and "exit_func" in fmt(e.c)]
-            if ("cmp", "!=", armed, C(0)) in conds:
+            runs = [e for e in p.events if e.kind == "CALL" and e.c is not None and q.mentions(e.c, lambda x: x == ("fld", THIS_OBJ, G))]
+            if armed_c in conds:
                 saw_run = saw_run or len(runs) == 1
                 ok = ok and len(runs) == 1
-            elif ("cmp", "==", armed, C(0)) in conds:
+            elif disarmed_c in conds:
                 ok = ok and not runs
             else:
                 ok = False
@@ -160,14 +199,14 @@ def check_scope_exit(rep, db, f, inst):
         for p in ps:
             st = {e.a[2]: e.b for e in p.events if e.kind == "STORE" and e.a[0] == "fld" and e.a[1] == THIS_OBJ}
             ot = {e.a[2]: e.b for e in p.events if e.kind == "STORE" and e.a[0] == "fld" and e.a[1] == other}
-            if (pt.get("rn") or "").startswith("rlbox::detail::scope_exit"):
-                if st.get("released") != ("rd", ("fld", other, "released")) or ot.get("released") != C(0):
-                    rep.violation(rule, site(f) + " [move]", "moving a scope guard must arm the destination iff the source was armed and disarm the source (got this.released=%s, source.released=%s)" % (
-                        fmt(st.get("released")) if "released" in st else None, fmt(ot.get("released")) if "released" in ot else "unchanged"), f["loc"], inst)
+            if (pt.get("rn") or "").startswith(((db.rec_by_id.get(f.get("rid")) or {}).get("n") or "rlbox::detail::scope_exit")):
+                if st.get(F) != ("rd", ("fld", other, F)) or ot.get(F) != C(0 if A else 1):
+                    rep.violation(rule, site(f) + " [move]", "moving a scope guard must arm the destination iff the source was armed and disarm the source (got this.%s=%s, source.%s=%s)" % (
+                        F, fmt(st.get(F)) if F in st else None, F, fmt(ot.get(F)) if F in ot else "unchanged"), f["loc"], inst)
                     return True
                 rep.ok(rule, site(f) + " [move]", "destination armed iff source was; source disarmed", inst)
             else:
-                if st.get("released") != C(1):
+                if st.get(F) != C(1 if A else 0):
                     rep.violation(rule, site(f) + " [ctor]", "a freshly constructed scope guard is not armed", f["loc"], inst)
                     return True
                 rep.ok(rule, site(f) + " [ctor]", "constructed armed", inst)
